@@ -1403,7 +1403,10 @@ func (g *Gen) scenarios() []intent {
 			} else {
 				out = append(out, SymStep{Kind: "updpw", U: u, PW: &p78})
 			}
-			return append(out, SymStep{Kind: "dropsess", U: b}, g.loginStep(b, u, p72, false))
+			// ... and the longer one is NOT the password (it was refused): bcrypt reads 72 bytes, so only a hasher that
+			// refuses longer input on the comparing side too keeps the two apart
+			return append(out, SymStep{Kind: "dropsess", U: b}, g.loginStep(b, u, p72, false),
+				SymStep{Kind: "dropsess", U: b}, g.loginStep(b, u, p78, false))
 		})
 		// a browser that is logged in as one account submits another account's identifier with its OWN
 		// password (and then with the right one)
